@@ -145,6 +145,7 @@ type Ctx struct {
 	log        []string
 	curFrame   *frame
 	onceDone   map[*Cell]bool
+	inGoPanic  bool
 }
 
 func (c *Ctx) abort(kind, format string, a ...interface{}) {
@@ -657,8 +658,14 @@ func (c *Ctx) goPanic(kind, msg string) {
 	if c.curFrame != nil {
 		site = c.curFrame.fn.String()
 	}
-	// runtime.Error value: represent as interface holding an opaque runtime error
-	panic(&goPanic{V: Iface{T: runtimeErrorType, V: &OpaqueVal{Tag: "runtime.Error:" + kind + ":" + msg}}, Kind: kind, Site: site, Msg: msg})
+	// the panic value is an error (as runtime.Error is): recover()ing code may call .Error() on it
+	var v Value = Iface{T: runtimeErrorType, V: &OpaqueVal{Tag: "runtime.Error:" + kind + ":" + msg}}
+	if c.Prog.ImportedPackage("errors") != nil && !c.inGoPanic {
+		c.inGoPanic = true
+		v = c.mkError(c.str("runtime error: " + msg))
+		c.inGoPanic = false
+	}
+	panic(&goPanic{V: v, Kind: kind, Site: site, Msg: msg})
 }
 
 var runtimeErrorType types.Type = types.NewNamed(types.NewTypeName(token.NoPos, nil, "runtime.Error", nil), types.NewStruct(nil, nil), nil)
